@@ -57,7 +57,12 @@ class Check:
         self.rundir = os.path.join(build.BUILD, "run", "%s-%d" % (prop, os.getpid()))
         self.env = dict(os.environ)
         self.env.update(SAN_ENV)
-        self.env["VERIF_SCRATCH"] = self.rundir
+        # per-case scratch files (argument files, log directories) live in shared memory when there is one:
+        # nothing there is needed after the run, and it avoids file-system journal contention
+        self.scratch = self.rundir
+        if os.path.isdir("/dev/shm") and os.access("/dev/shm", os.W_OK):
+            self.scratch = "/dev/shm/verif-run/%s-%d" % (prop, os.getpid())
+        self.env["VERIF_SCRATCH"] = self.scratch
 
     # ------------------------------------------------------------------ build
     def build_all(self):
@@ -398,6 +403,7 @@ class Check:
     # ------------------------------------------------------------------ main
     def main(self):
         os.makedirs(self.rundir, exist_ok=True)
+        os.makedirs(self.scratch, exist_ok=True)
         try:
             self.build_all()
             log("[%s] built in %.1fs" % (self.prop, time.time() - self.t0))
@@ -406,6 +412,7 @@ class Check:
             missing = self.write_evidence()
         finally:
             shutil.rmtree(self.rundir, ignore_errors=True)
+            shutil.rmtree(self.scratch, ignore_errors=True)
             try:
                 build.prune_cache()
             except Exception:
@@ -435,12 +442,14 @@ def last_line(text):
 def replay_only(prop, path):
     c = Check(prop, "quick", 1)
     os.makedirs(c.rundir, exist_ok=True)
+    os.makedirs(c.scratch, exist_ok=True)
     try:
         c.build_all()
         c.open_kf = []
         failed, out = c.replay(os.path.abspath(path))
     finally:
         shutil.rmtree(c.rundir, ignore_errors=True)
+        shutil.rmtree(c.scratch, ignore_errors=True)
     sys.stdout.write(out)
     if failed:
         log("VIOLATION property=%s replay=%s" % (prop, path))
